@@ -364,7 +364,7 @@ def _canon(calls):
 
 class C08(Prop):
     id = "C08"
-    lean_modules = ["VivModel.Props.C08"]
+    lean_modules = ["VivModel.Props.C08", "VivModel.Props.C08Src"]
     build_targets = ["VivModel.Model.Events", "VivModel.Model.Proto"]
     driver = "C08"
     technique = "Lean 4 proof (induction over registration lists and over the run loop; decide/rfl over skeletons regenerated from engine.py/event.py) + translator + exact listener-log correspondence on real simulations"
